@@ -67,6 +67,20 @@ def _run(ctx, pid, thorough, rng, exe, tmp):
         # nodes answered must not change what is sent the second time)
         if i % 2 == 1 and not any(o.startswith("featother") for o in opts) and rng.random() < 0.7: opts.append("featother %d" % rng.randrange(256))
         sessions.append(g.Session("boot%d" % i, c, os.path.join(tmp, "boot%d" % i), tree=tree, boot=True, bus_opts=opts, reboot=(i % 2 == 1)).end())
+    # several track outputs of which any subset is absent, trains with initial functions: "every initial train function once per
+    # CONNECTED track output" must not depend on where the absent ones are listed
+    for i in range(24 if thorough else 6):
+        c = cfgmod.gen(rng, nboards=rng.choice([3, 4]), ntrains=rng.choice([1, 2]))
+        for b in c["boards"][1:]: b["uid"][0] = (b["uid"][0] & 0x6D) | 0x10            # track-output class, not an interface
+        for t in c["trains"]:
+            if not any(p.get("initial") is not None for p in t["per"]):
+                t["per"].append({"id": "fi_%s" % t["id"], "bit": next(b for b in range(32) if b not in [p["bit"] for p in t["per"]] and b not in (5, 6, 7)), "initial": 1})
+        tos = [b for b in c["boards"][1:]]
+        absent = set(b["id"] for b in tos if rng.random() < 0.5)
+        if len(absent) == len(tos): absent.discard(tos[-1]["id"])
+        if not absent: absent.add(tos[0]["id"])
+        tree = [([], c["boards"][0]["uid"])] + [([k + 1], b["uid"]) for k, b in enumerate(tos) if b["id"] not in absent]
+        sessions.append(g.Session("bootto%d" % i, c, os.path.join(tmp, "bootto%d" % i), tree=tree, boot=True, reboot=(i % 2 == 0)).end())
     if pid == "C15":
         # dynamic part: notices + commands in drained sessions (state compared after every event)
         for i in range(40 if thorough else 8):
